@@ -61,6 +61,24 @@ func runC12(c *vu.Case) {
 			}
 			settle()
 			out = fmt.Sprintf("%s probing=%s", members(), intList(w.parkedRanks("req")))
+		case "fixlow":
+			// the periodic sweep over the connected peers (`fixLowPeers`), which hands every one of them to `peerFound`.
+			// Which connected peers advertise the protocol and pass the filter right now is a fact the harness set
+			// itself (ident / proto lines): it is written into the line for the model.
+			var valid []int
+			for r := 0; r < n; r++ {
+				q := w.peerOf(r)
+				if len(w.h.Net().ConnsToPeer(q)) == 0 || !passes[q] {
+					continue
+				}
+				if ps, err := w.h.Peerstore().SupportsProtocols(q, w.d.protocols...); err == nil && len(ps) > 0 {
+					valid = append(valid, r)
+				}
+			}
+			c.In[i] = "fixlow valid=" + strings.Trim(intList(valid), "[]")
+			w.d.fixLowPeers()
+			settle()
+			out = fmt.Sprintf("%s probing=%s", members(), intList(w.parkedRanks("req")))
 		case "probe": // the outcome of the admission probe in flight for p
 			pk := w.findParked(atoi(e["p"]))
 			if pk == nil {
@@ -215,6 +233,8 @@ func TestVerifC12(t *testing.T) {
 				case x < 3:
 					c.In = append(c.In, fmt.Sprintf("%s p=%d proto=%d filt=%d", []string{"ident", "proto"}[r.Intn(2)], p,
 						[]int{1, 1, 1, 0}[r.Intn(4)], []int{1, 1, 1, 0}[r.Intn(4)]))
+				case x < 4:
+					c.In = append(c.In, "fixlow")
 				case x < 6:
 					c.In = append(c.In, fmt.Sprintf("probe p=%d res=%s", p, []string{"ok", "ok", "fail", "empty"}[r.Intn(4)]))
 				default:
